@@ -62,6 +62,7 @@ def run_property(pid, tier="quick", seed=0, only=None, verbose=False, do_bounded
     nrep = 0
     # ---------------------------------------------------------------- engine P
     contracts = []
+    os.environ["VERIF_TIER"] = tier            # contract files add instances in the thorough tier (contracts.THOROUGH)
     if do_proof:
         try:
             mod = importlib.import_module("contracts.%s" % pidl)
@@ -76,7 +77,12 @@ def run_property(pid, tier="quick", seed=0, only=None, verbose=False, do_bounded
     for con in contracts:
         if only and only not in con.name:
             continue
-        res = verify.run_contract(con, timeout, verbose=verbose)
+        if tier == "thorough":
+            os.environ["PYVC_CROSSCHECK"] = "1"       # every proof re-checked by cvc5 / z3 4.8.12 (not the canary runs)
+        try:
+            res = verify.run_contract(con, timeout, verbose=verbose)
+        finally:
+            os.environ.pop("PYVC_CROSSCHECK", None)
         con._base_discharged = {k for k, o in res.obligations.items() if o["status"] == "unsat"}
         con._base_all = set(res.obligations)
         funcs.update(res.functions)
@@ -151,7 +157,10 @@ def run_property(pid, tier="quick", seed=0, only=None, verbose=False, do_bounded
             if c["status"] == "survived":
                 undecided.append("canary '%s' of %s survived: the contract does not pin this behaviour down" % (label, con.name))
     # obligations that were discharged on the reference tree must still be generated
-    missing = sorted(base_ids - set(all_oids)) if (contracts and not only) else []
+    # (the baseline is frozen in the thorough tier, which runs more instances of some contracts: in the quick tier only the ids of the
+    # contracts that ran are expected)
+    ran = {c.name for c in contracts}
+    missing = sorted(i for i in base_ids - set(all_oids) if tier == "thorough" or i.split(":", 1)[0] in ran) if (contracts and not only) else []
     for m in missing:
         undecided.append("obligation %s of the baseline was not generated on this tree" % m)
     # ---------------------------------------------------------------- engine B
@@ -272,8 +281,9 @@ def _z3v():
 
 
 def freeze_baseline(pids):
-    """record the ids of obligations discharged on the reference tree (run by hand, committed)"""
+    """record the ids of obligations discharged on the reference tree (run by hand, committed); thorough tier = every instance"""
     from . import verify
+    os.environ["VERIF_TIER"] = "thorough"
     p = os.path.join(ROOT, "baseline_obligations.json")
     base = load_json(p, {})
     for pid in pids:
